@@ -243,7 +243,7 @@ func (u *Unreliable) WriteMsgUDP(b, oob []byte, addr *net.UDPAddr) (n, oobn int,
 	}
 
 	dataLength := uint16(len(b))
-	if uint16(len(b)) > MaxFrameDataLength {
+	if len(b) > int(MaxFrameDataLength) {
 		err = transport.ErrBufOverflow
 		return n, oobn, err
 	}
